@@ -2,6 +2,7 @@ package props
 
 import (
 	"fmt"
+	"math"
 	"strconv"
 	"strings"
 	"testing"
@@ -278,7 +279,41 @@ func TestC14Numbers(t *testing.T) {
 			digits = rapid.SampledFrom([]string{"0", "7", "65534", "65535", "65536", "9223372036854775807", "4294967296", "10", "007"}).Draw(rt, "bdigits")
 		}
 		spelling := zeros + digits
-		switch gen.Uniform(rt, "form", 4) {
+		switch gen.Uniform(rt, "form", 5) {
+		case 4:
+			// several literals in one script, close to each other: each denotes
+			// its own value
+			bases := []int64{1 << 53, 1<<53 + 1, 1 << 62, math.MaxInt64 - 2, 65534, 65536, 1000000000000000, 16777216, 3, 4611686018427387905}
+			base := bases[gen.Uniform(rt, "nbase", len(bases))]
+			if rapid.Bool().Draw(rt, "nrand") {
+				base = rapid.Int64Range(3, math.MaxInt64-2).Draw(rt, "nrbase")
+			}
+			n := rapid.IntRange(2, 4).Draw(rt, "nlits")
+			var parts []string
+			want := lang.Array()
+			for i := 0; i < n; i++ {
+				v := base + rapid.Int64Range(-2, 2).Draw(rt, "nd")
+				z := strings.Repeat("0", rapid.IntRange(0, 2).Draw(rt, "nz"))
+				if v < 1<<53 && gen.Uniform(rt, "asfloat", 3) == 0 {
+					frac := rapid.SampledFrom([]string{"0", "5", "25", "000", "0000001"}).Draw(rt, "nfrac")
+					sp := z + strconv.FormatInt(v, 10) + "." + frac
+					f, err := strconv.ParseFloat(sp, 64)
+					if err != nil {
+						return
+					}
+					parts = append(parts, sp)
+					want.A = append(want.A, lang.Float(f))
+				} else {
+					parts = append(parts, z+strconv.FormatInt(v, 10))
+					want.A = append(want.A, lang.Int(v))
+				}
+			}
+			spelling = strings.Join(parts, ", ")
+			c := &Case{Prop: "C14", Kind: "number-values", Script: "return [" + spelling + "];", Exp: Expect{Val: want}, NoOpt: rapid.Bool().Draw(rt, "noopt")}
+			if err := runCase(c); err != nil {
+				violation(rt, "C14", c, "%v", err)
+			}
+			col.Class("several-neighbouring-literals")
 		case 0, 1:
 			v, err := strconv.ParseInt(spelling, 10, 64)
 			if err != nil {
